@@ -757,6 +757,164 @@ func (w *World) reachesAssign(v *variant, n ast.Node, field *types.Var) bool {
 	return found
 }
 
+// idleGuarantee: the set of CPU fields (buses, units) whose emptiness test is known to have
+// returned true whenever the bool function fd returns true. Sequential reading of the body:
+// `x := E` binds x to the set E guarantees; `if !E { return false }` adds E's set to what is
+// known afterwards; `for _, e := range m.F { if !e.isEmpty() { return false } }` adds F;
+// `return E` contributes known ∪ set(E); the guarantee is the intersection over the returns
+// that are not the constant false. set(a && b) = set(a) ∪ set(b); set(m.F.isEmpty()) = {F};
+// set(m.helper()) = guarantee(helper); everything else guarantees nothing.
+func idleGuarantee(w *World, v *variant, fd *ast.FuncDecl, memo map[*ast.FuncDecl]map[*types.Var]bool, depth int) map[*types.Var]bool {
+	if g, ok := memo[fd]; ok {
+		return g
+	}
+	memo[fd] = map[*types.Var]bool{}
+	if depth > 4 || fd == nil || fd.Body == nil {
+		return memo[fd]
+	}
+	info := v.info
+	vars := map[types.Object]map[*types.Var]bool{}
+	var setOf func(e ast.Expr) map[*types.Var]bool
+	setOf = func(e ast.Expr) map[*types.Var]bool {
+		out := map[*types.Var]bool{}
+		switch x := ast.Unparen(e).(type) {
+		case *ast.BinaryExpr:
+			if x.Op == token.LAND {
+				for k := range setOf(x.X) {
+					out[k] = true
+				}
+				for k := range setOf(x.Y) {
+					out[k] = true
+				}
+			}
+		case *ast.Ident:
+			for k := range vars[info.Uses[x]] {
+				out[k] = true
+			}
+		case *ast.CallExpr:
+			if sel, ok := x.Fun.(*ast.SelectorExpr); ok {
+				if strings.EqualFold(sel.Sel.Name, "isEmpty") {
+					if f := v.cpuFieldOf(sel.X); f != nil {
+						out[f.obj] = true
+						return out
+					}
+				}
+			}
+			if f, ok := typeutil.Callee(info, x).(*types.Func); ok {
+				if fd2, _ := w.FuncDecl(f); fd2 != nil && fd2.Recv != nil && fd2 != fd {
+					if rt := info.TypeOf(fd2.Recv.List[0].Type); rt != nil && namedOf(rt) == v.cpu {
+						for k := range idleGuarantee(w, v, fd2, memo, depth+1) {
+							out[k] = true
+						}
+					}
+				}
+			}
+		}
+		return out
+	}
+	returnsFalse := func(list []ast.Stmt) bool {
+		if len(list) != 1 {
+			return false
+		}
+		rs, ok := list[0].(*ast.ReturnStmt)
+		if !ok || len(rs.Results) != 1 {
+			return false
+		}
+		tv, ok := info.Types[rs.Results[0]]
+		return ok && tv.Value != nil && tv.Value.String() == "false"
+	}
+	known := map[*types.Var]bool{}
+	var result map[*types.Var]bool
+	meet := func(s map[*types.Var]bool) {
+		if result == nil {
+			result = map[*types.Var]bool{}
+			for k := range s {
+				result[k] = true
+			}
+			return
+		}
+		for k := range result {
+			if !s[k] {
+				delete(result, k)
+			}
+		}
+	}
+	for _, st := range fd.Body.List {
+		switch x := st.(type) {
+		case *ast.AssignStmt:
+			if len(x.Lhs) == 1 && len(x.Rhs) == 1 {
+				if id, ok := x.Lhs[0].(*ast.Ident); ok {
+					o := info.Defs[id]
+					if o == nil {
+						o = info.Uses[id]
+					}
+					vars[o] = setOf(x.Rhs[0])
+				}
+			}
+		case *ast.IfStmt:
+			if u, ok := ast.Unparen(x.Cond).(*ast.UnaryExpr); ok && u.Op == token.NOT && x.Else == nil && returnsFalse(x.Body.List) {
+				for k := range setOf(u.X) {
+					known[k] = true
+				}
+			} else {
+				// any other conditional return contributes what is known so far
+				ast.Inspect(x, func(n ast.Node) bool {
+					if rs, ok := n.(*ast.ReturnStmt); ok && len(rs.Results) == 1 {
+						if tv, ok := info.Types[rs.Results[0]]; !ok || tv.Value == nil || tv.Value.String() != "false" {
+							s := map[*types.Var]bool{}
+							for k := range known {
+								s[k] = true
+							}
+							meet(s)
+						}
+					}
+					return true
+				})
+			}
+		case *ast.RangeStmt:
+			f := v.cpuFieldOf(x.X)
+			good := false
+			if f != nil && len(x.Body.List) == 1 {
+				if is, ok := x.Body.List[0].(*ast.IfStmt); ok && is.Else == nil && returnsFalse(is.Body.List) {
+					if u, ok := ast.Unparen(is.Cond).(*ast.UnaryExpr); ok && u.Op == token.NOT {
+						if c, ok := ast.Unparen(u.X).(*ast.CallExpr); ok {
+							if sel, ok := c.Fun.(*ast.SelectorExpr); ok && strings.EqualFold(sel.Sel.Name, "isEmpty") {
+								if id, ok := ast.Unparen(sel.X).(*ast.Ident); ok && x.Value != nil {
+									if vid, ok := x.Value.(*ast.Ident); ok && info.Uses[id] == info.Defs[vid] {
+										good = true
+									}
+								}
+							}
+						}
+					}
+				}
+			}
+			if good {
+				known[f.obj] = true
+			}
+		case *ast.ReturnStmt:
+			if len(x.Results) == 1 {
+				if tv, ok := info.Types[x.Results[0]]; ok && tv.Value != nil && tv.Value.String() == "false" {
+					continue
+				}
+				s := map[*types.Var]bool{}
+				for k := range known {
+					s[k] = true
+				}
+				for k := range setOf(x.Results[0]) {
+					s[k] = true
+				}
+				meet(s)
+			}
+		}
+	}
+	if result == nil {
+		result = map[*types.Var]bool{}
+	}
+	memo[fd] = result
+	return result
+}
+
 // ---------------------------------------------------------------------------
 // R07.6
 
@@ -820,6 +978,14 @@ func ruleCompletionPredicate(r *Run, rule string) {
 			})
 		}
 		collect(v.isEmpty, 0)
+		// polarity: a component counts as covered only if "the predicate returns true" IMPLIES
+		// "the component's emptiness test returned true"
+		implied := idleGuarantee(w, v, v.isEmpty, map[*ast.FuncDecl]map[*types.Var]bool{}, 0)
+		for k := range ref {
+			if !implied[k] {
+				delete(ref, k)
+			}
+		}
 		// the exit is guarded: `if m.<pred>() { break }` in the main loop
 		guarded := false
 		if loop := v.mainLoop(); loop != nil {
